@@ -109,6 +109,7 @@ def run(ctx):
 
     summarize(ctx, res, replay=replay)
     bounded(ctx)
+    bounded_special(ctx)
 
 
 def bounded(ctx):
@@ -146,6 +147,36 @@ def bounded(ctx):
                     with MI.patch_table(table):
                         if MI.on_cifs(path) != (exp[1] == "cifs"):
                             ctx.fail(None, f"on_cifs({path!r}) disagrees with the component-prefix mount", {"table": table, "path": path}, domain=dom)
+
+
+SPECIAL_NAMES = ["a.b", "a+b", "a*", "[ab]", "a?b", "(a)", "a$", "a|b", "a^", "a{2}", "a\\d"]  # regex / glob metacharacters
+PLAIN_NAMES = ["aXb", "aab", "ab", "aaa", "a", "b", "aa", "a1", "ad"]  # what those would match if not taken literally
+
+
+def bounded_special(ctx):
+    """mount point names are compared LITERALLY, component by component: names with regex / glob metacharacters"""
+    from pydra.utils.mount_identifier import MountIndentifier as MI
+
+    names = SPECIAL_NAMES + PLAIN_NAMES
+    paths = [f"/m/{n}{tail}" for n in names for tail in ("", "/f.txt", "x/f.txt")]
+    dom = ctx.domain(
+        "mount-point-names-with-metacharacters",
+        bound=f"one mount /m/<s> (and /m/<s>/sub together with /m/<s>) for s in {SPECIAL_NAMES}, fstype cifs; paths /m/<n>, /m/<n>/f.txt, /m/<n>x/f.txt for n in the special and the plain names {PLAIN_NAMES}",
+        rule="as mount-tables; non-trivial = the path is not below the special mount point (a literal comparison must not match it)",
+        exhaustive=True,
+    )
+    for sname in SPECIAL_NAMES:
+        for mps in ([f"/m/{sname}"], [f"/m/{sname}/sub", f"/m/{sname}"]):
+            out = "\n".join(f"dev{i} on {m} type cifs (rw,relatime)" for i, m in enumerate(mps))
+            table = MI.parse_mount_table(0, out)
+            if not valid_table(table) or sorted(p for p, _ in table) != sorted(mps):
+                ctx.fail(None, "parse_mount_table does not return the mount points as written", {"mount_output": out, "table": table}, domain=dom)
+                continue
+            for path in paths + [m + "/f.txt" for m in mps]:
+                got, exp = native_case(table, path)
+                dom.case((tuple(table), path), nontrivial=exp[1] != "cifs", sample={"table": table, "path": path, "mount": [str(got[0]), got[1]]})
+                if got != exp:
+                    ctx.fail(None, f"get_mount({path!r}) with table {table} returned {got}, longest component prefix is {exp}", {"table": table, "path": path, "got": [str(got[0]), got[1]], "expected": [str(exp[0]), exp[1]]}, domain=dom)
 
 
 def replay(rec):
